@@ -43,6 +43,9 @@ theories/Infer/FitsEngine.vos theories/Infer/FitsEngine.vok theories/Infer/FitsE
 theories/Infer/Inv.vo theories/Infer/Inv.glob theories/Infer/Inv.v.beautified theories/Infer/Inv.required_vo: theories/Infer/Inv.v theories/Base/Hier.vo theories/Base/Ty.vo theories/Infer/Store.vo theories/Infer/Engine.vo theories/Infer/Run.vo
 theories/Infer/Inv.vio: theories/Infer/Inv.v theories/Base/Hier.vio theories/Base/Ty.vio theories/Infer/Store.vio theories/Infer/Engine.vio theories/Infer/Run.vio
 theories/Infer/Inv.vos theories/Infer/Inv.vok theories/Infer/Inv.required_vos: theories/Infer/Inv.v theories/Base/Hier.vos theories/Base/Ty.vos theories/Infer/Store.vos theories/Infer/Engine.vos theories/Infer/Run.vos
+theories/Graph/Closure.vo theories/Graph/Closure.glob theories/Graph/Closure.v.beautified theories/Graph/Closure.required_vo: theories/Graph/Closure.v 
+theories/Graph/Closure.vio: theories/Graph/Closure.v 
+theories/Graph/Closure.vos theories/Graph/Closure.vok theories/Graph/Closure.required_vos: theories/Graph/Closure.v 
 props/C01.vo props/C01.glob props/C01.v.beautified props/C01.required_vo: props/C01.v theories/Base/Hier.vo theories/Base/Ty.vo theories/Sub/Match.vo theories/Sub/SubSpec.vo theories/Sub/SubProofs.vo
 props/C01.vio: props/C01.v theories/Base/Hier.vio theories/Base/Ty.vio theories/Sub/Match.vio theories/Sub/SubSpec.vio theories/Sub/SubProofs.vio
 props/C01.vos props/C01.vok props/C01.required_vos: props/C01.v theories/Base/Hier.vos theories/Base/Ty.vos theories/Sub/Match.vos theories/Sub/SubSpec.vos theories/Sub/SubProofs.vos
@@ -67,3 +70,6 @@ props/C05.vos props/C05.vok props/C05.required_vos: props/C05.v theories/Base/Hi
 props/C06.vo props/C06.glob props/C06.v.beautified props/C06.required_vo: props/C06.v theories/Base/Hier.vo theories/Base/Ty.vo theories/Sub/Match.vo theories/Sub/SubSpec.vo theories/Sub/SubProofs.vo theories/Infer/Store.vo theories/Infer/Engine.vo theories/Infer/Run.vo theories/Infer/Fits.vo theories/Infer/FitsEngine.vo
 props/C06.vio: props/C06.v theories/Base/Hier.vio theories/Base/Ty.vio theories/Sub/Match.vio theories/Sub/SubSpec.vio theories/Sub/SubProofs.vio theories/Infer/Store.vio theories/Infer/Engine.vio theories/Infer/Run.vio theories/Infer/Fits.vio theories/Infer/FitsEngine.vio
 props/C06.vos props/C06.vok props/C06.required_vos: props/C06.v theories/Base/Hier.vos theories/Base/Ty.vos theories/Sub/Match.vos theories/Sub/SubSpec.vos theories/Sub/SubProofs.vos theories/Infer/Store.vos theories/Infer/Engine.vos theories/Infer/Run.vos theories/Infer/Fits.vos theories/Infer/FitsEngine.vos
+props/C09.vo props/C09.glob props/C09.v.beautified props/C09.required_vo: props/C09.v theories/Graph/Closure.vo
+props/C09.vio: props/C09.v theories/Graph/Closure.vio
+props/C09.vos props/C09.vok props/C09.required_vos: props/C09.v theories/Graph/Closure.vos
